@@ -14,12 +14,12 @@ from . import core
 PROPERTY = "C20"
 
 MODFUNCS = ["u_to_euler", "u_to_rod", "u_to_ubi", "ubi_to_u", "ubi_to_u_and_eps",
-            "euler_to_u", "ub_to_u_b"]
+            "euler_to_u", "ub_to_u_b", "ubi_to_u_b"]
 FNKEYS = ["%s.%s" % (m, f) for m in ("tools", "laue") for f in MODFUNCS] + ["symmetry.Umis"]
 # which input class a function takes
 FN_INPUT = {"u_to_euler": "U", "u_to_rod": "U", "u_to_ubi": "Ucell", "ubi_to_u": "ubi",
             "ubi_to_u_and_eps": "ubicell", "euler_to_u": "euler", "ub_to_u_b": "ub",
-            "Umis": "umis"}
+            "Umis": "umis", "ubi_to_u_b": "ubi"}
 
 VALID_ASSIGN = ["T", "F"]
 INVALID_ASSIGN = ["int0", "int1", "int2", "int-1", "f0", "f1", "None", "sTrue", "sFalse",
@@ -178,6 +178,27 @@ def hazard_free(fn, U):
     return True
 
 
+def gen_malformed(rng, fnname):
+    """an input outside every class of the quantifier (wrong shape): the call may do anything, but
+    whatever exception comes out, the switch must still hold the last valid assignment"""
+    import numpy as np
+    cls = FN_INPUT[fnname]
+    shape = rng.choice([(2, 3), (3, 2), (3,), (1, 3)])
+    M = np.array([[rng.uniform(-1, 1) for _ in range(shape[-1])] for _ in range(shape[0])]) if len(shape) == 2 \
+        else np.array([rng.uniform(-1, 1) for _ in range(3)])
+    cell = [core.fhex(x) for x in random_cell(rng)]
+    if cls == "U" or cls == "ubi" or cls == "ub":
+        args = [core.enc_array(M)]
+    elif cls in ("Ucell", "ubicell"):
+        args = [core.enc_array(M), cell]
+    elif cls == "umis":
+        args = [core.enc_array(M), core.enc_array(random_rotation(rng)), rng.between(1, 7)]
+    else:  # euler: a vector where a scalar is expected
+        return {"cls": cls, "valid": False, "malformed": True, "kind": "malformed", "args_arrays": [core.enc_array(M)] ,
+                "args": [core.fhex(0.5), core.fhex(0.5), core.fhex(0.5)]}
+    return {"cls": cls, "valid": False, "malformed": True, "kind": "malformed", "args": args}
+
+
 def gen_input(rng, fnname, valid):
     """-> dict(cls, valid, kind, args=[encoded...])"""
     import numpy as np
@@ -295,6 +316,9 @@ def simplest_input(fnname, valid):
 def decode_args(inp):
     cls = inp["cls"]
     a = inp["args"]
+    if inp.get("malformed") and cls == "euler":
+        v = core.dec_array(inp["args_arrays"][0])
+        return [v, 0.5, 0.5]
     if cls == "U":
         return [core.dec_array(a[0])]
     if cls == "Ucell":
@@ -319,6 +343,7 @@ def generate(rng, tier, index):
     allow_invalid_assign = rng.chance(0.7)
     allow_preempt = rng.chance(0.5)
     allow_invalid_input = rng.chance(0.85)
+    allow_malformed = rng.chance(0.3)
     n_fns = rng.between(1, len(FNKEYS))
     fns = sorted(rng.sample(FNKEYS, n_fns))
     n_inputs = rng.between(1, 8)
@@ -326,7 +351,10 @@ def generate(rng, tier, index):
     for _ in range(n_inputs):
         fk = rng.choice(fns)
         valid = (not allow_invalid_input) or rng.chance(0.5)
-        inp = gen_input(rng, fk.split(".")[1], valid)
+        if allow_malformed and rng.chance(0.25):
+            inp = gen_malformed(rng, fk.split(".")[1])
+        else:
+            inp = gen_input(rng, fk.split(".")[1], valid)
         inp["fn"] = fk.split(".")[1]
         inputs.append(inp)
     # functions that can consume each input (same function name, either module)
@@ -414,6 +442,8 @@ def execute(trace):
                      "detail": "reset to True raised %s" % type(e).__name__}
     on = True
     rot0 = rot_digest()
+    grams = set()
+    kinds_seen = []
     first_value = {}     # (fn name, input id) -> canonical value of a valid input
     n_assign = n_call = 0
     inputs = trace["inputs"]
@@ -502,6 +532,9 @@ def execute(trace):
     def judge(fk, iid, inp, outcome, value, states, where):
         """states: set of switch states the guard may legitimately have seen"""
         fname = fk.split(".")[1]
+        if inp.get("malformed"):
+            count("relax.malformed_input_outcome_not_judged")
+            return
         if inp["valid"]:
             if outcome != "ok":
                 raise _Violation("valid input rejected" if outcome == "ValueError" else "valid input raised",
@@ -551,7 +584,7 @@ def execute(trace):
                     if FN_INPUT[fk.split(".")[1]] != inp["cls"]:
                         continue
                     n_call += 1
-                    cls_tag = "valid" if inp["valid"] else "invalid"
+                    cls_tag = "valid" if inp["valid"] else ("malformed" if inp.get("malformed") else "invalid")
                     if kind == "call":
                         outcome, value, _, _ = call(fk, inp)
                         count("tt.%s|call|%s|%s" % (int(on), fk, cls_tag))
@@ -606,7 +639,11 @@ def execute(trace):
     probes["same_switch_object"] = bool(tools.CHECKS is xfab.CHECKS and laue.CHECKS is xfab.CHECKS
                                         and symmetry.CHECKS is xfab.CHECKS) if all(
         hasattr(m, "CHECKS") for m in (tools, laue, symmetry)) else False
-    return {"violation": violation, "events": events, "counters": counters,
+    for e in events:
+        kinds_seen.append("%s:%s" % (e[1], e[2] if e[1] != "assign" else ("valid" if e[2] in VALID_ASSIGN else "invalid")))
+        if len(kinds_seen) >= 3:
+            grams.add(">".join(kinds_seen[-3:]))
+    return {"violation": violation, "events": events, "counters": counters, "sets": {"grams": sorted(grams)},
             "nontrivial": n_assign >= 1 and n_call >= 1, "steps": len(events), "probes": probes,
             "fault_free": all(op[0] != "pcall" and (op[0] != "assign" or op[1] in VALID_ASSIGN)
                               for op in trace["ops"])}
@@ -648,7 +685,7 @@ def shrink_candidates(trace):
             t = copy.deepcopy(trace)
             t["inputs"][i] = None
             yield t
-        elif inp["kind"] != "simple":
+        elif inp["kind"] not in ("simple", "malformed"):
             t = copy.deepcopy(trace)
             s = simplest_input(inp["fn"], inp["valid"])
             s["fn"] = inp["fn"]
@@ -658,7 +695,7 @@ def shrink_candidates(trace):
 
 def trace_size(trace):
     return (len(trace["ops"]), sum(1 for op in trace["ops"] if op[0] == "pcall"),
-            sum(1 for i in trace["inputs"] if i is not None and i["kind"] != "simple"),
+            sum(1 for i in trace["inputs"] if i is not None and i["kind"] not in ("simple", "malformed")),
             sum(1 for i in trace["inputs"] if i is not None))
 
 
@@ -672,3 +709,30 @@ def sample_view(trace):
     return {"ops": trace["ops"][:12], "n_ops": len(trace["ops"]),
             "inputs": [{"fn": i["fn"], "cls": i["cls"], "valid": i["valid"], "kind": i["kind"]}
                        for i in trace["inputs"] if i]}
+
+
+def coverage_extra(prop, merged, pre):
+    c = merged["counters"]
+    tt = {k[3:]: v for k, v in c.items() if k.startswith("tt.")}
+    pp = [k for k in c if k.startswith("preempt_point.")]
+    return {
+        "transition_table_entries_hit": len(tt),
+        "transition_table_hits": sum(tt.values()),
+        "distinct_preemption_points": len(pp),
+        "distinct_op_3grams": len(merged["sets"].get("grams", [])),
+        "faults_fired": {k[6:]: v for k, v in c.items() if k.startswith("fault.")},
+        "relaxations_applied": {k[6:]: v for k, v in c.items() if k.startswith("relax.")},
+        "probes": {k[6:]: v for k, v in c.items() if k.startswith("probe.")},
+        "counters": {k: v for k, v in c.items() if not k.startswith(("tt.", "preempt_point."))},
+        "real_vs_stub": {"real": ["xfab/checks.py", "xfab/__init__.py", "every guarded function in xfab.tools, xfab.laue, xfab.symmetry"],
+                         "simulated": ["the pre-empting second party (one atomic attribute store at a traced line event)"]},
+    }
+
+
+def assumptions(prop):
+    return ["normal interpreter: under python -O (__debug__ False) `activated` reads False by documented design",
+            "valid rotations deviate from orthonormality by < 1e-6 (float64, float32 values, float32 dtype, entrywise perturbation < 1e-7); "
+            "clearly invalid ones by >= 1e-3 in U^T U - I or in the determinant",
+            "inputs are generated so that the unguarded code cannot raise ValueError of its own (no 180-degree rotations for u_to_rod, no "
+            "near-gimbal-lock for u_to_euler), so a ValueError is attributable to the guard",
+            "numpy.bool_ assignments may be accepted or rejected; malformed (wrong-shape) inputs only have to leave the switch intact"]
